@@ -353,7 +353,8 @@ Definition att_step (s : st) (t : tid) (a : att) (b : bool) : option st :=
       if slock s c then None else go (with_pc a PLostPresRem) (hubrem c (a_use a) s)
   | PLostPresRem =>
       let s1 := if o_pres (a_opts a) then set_pres (upd (pres s) c false) s else s in
-      if is_srv (a_kind a) then fin s1 else go (with_err a true PErrDelete) s1
+      (* client path: subscribeCmd returns a disconnect, so its deferred presence removal runs too *)
+      if is_srv (a_kind a) then fin s1 else go (with_err a true (fail_pc a)) s1
   | PClosedHubRem =>
       if slock s c then None else go (with_pc a PClosedPresRem) (hubrem c (a_use a) s)
   | PClosedPresRem =>
@@ -361,7 +362,7 @@ Definition att_step (s : st) (t : tid) (a : att) (b : bool) : option st :=
       go (with_pc a PClosedGate) s1
   | PClosedGate =>
       let s1 := set_gst1 (a_use a) GDead (close_cap (a_cap a) s) in
-      if is_srv (a_kind a) then fin s1 else go (with_err (with_cap a None PErrDelete) true PErrDelete) s1
+      if is_srv (a_kind a) then fin s1 else go (with_err (with_cap a None PErrDelete) true (fail_pc a)) s1
   | PRelease => go (with_cap a None (if is_srv (a_kind a) then PPush else PJoin)) (close_cap (a_cap a) s)
   | PPush =>
       (* Client.Subscribe: the subscribe push is enqueued; a closed writer makes it return before the join *)
